@@ -91,7 +91,11 @@ func (p *printer) v(k int) string {
 
 func (p *printer) cond(n *Node) string {
 	a, b := p.v(0), p.v(1)
-	switch n.Cond % 7 {
+	switch n.Cond % 9 {
+	case 7: // the right operand of && ends in a negation
+		return fmt.Sprintf("%s != %d && !(%s < 2)", a, n.CK%3, b)
+	case 8:
+		return fmt.Sprintf("%s < %d || !(%s == 2)", a, n.CK%3, b)
 	case 0:
 		return fmt.Sprintf("%s%%2 == 0", a)
 	case 1:
@@ -414,11 +418,11 @@ func (g *genState) stmt(depth int, inLoop, inSwitch bool) *Node {
 		}
 		return n
 	case 1:
-		n := &Node{K: "if", ID: g.nextID(), Cond: rx.Uniform(rt, 7, "cond"), CK: rx.Uniform(rt, 4, "ck")}
+		n := &Node{K: "if", ID: g.nextID(), Cond: rx.Uniform(rt, 9, "cond"), CK: rx.Uniform(rt, 4, "ck")}
 		n.Body = g.stmts(depth+1, inLoop, inSwitch, 3)
 		cur := n
 		for rx.Chance(rt, "elif", 1, 3) && g.budget > 0 {
-			e := &Node{K: "if", ID: g.nextID(), Cond: rx.Uniform(rt, 7, "cond"), CK: rx.Uniform(rt, 4, "ck")}
+			e := &Node{K: "if", ID: g.nextID(), Cond: rx.Uniform(rt, 9, "cond"), CK: rx.Uniform(rt, 4, "ck")}
 			e.Body = g.stmts(depth+1, inLoop, inSwitch, 2)
 			cur.ElIf = e
 			cur = e
@@ -452,6 +456,13 @@ func (g *genState) stmt(depth int, inLoop, inSwitch bool) *Node {
 			nv := 1
 			if rx.Chance(rt, "caselist", 1, 4) && !skip("c06-case-list") {
 				nv = 2
+			}
+			if t := n.Tag % 5; i > 0 && (t == 1 || t == 2 || t == 4) && rx.Chance(rt, "overlap", 1, 3) {
+				// case expressions that are not constants may repeat: the first clause that matches runs, alone,
+				// even when its body is empty
+				prev := n.Cases[rx.Uniform(rt, len(n.Cases), "overlapwith")].Vals
+				c.Vals = append(c.Vals, prev[rx.Uniform(rt, len(prev), "overlapval")])
+				nv = 0
 			}
 			for j := 0; j < nv; j++ {
 				for v := 0; v < 6; v++ {
